@@ -4071,6 +4071,13 @@ def _walk_working_dir_paths(
             if dirpath != basepath:
                 continue
 
+        # A symlink to a directory is a single entry for git (tracked or
+        # untracked as a link), never a directory to look into.
+        for dirname in list(dirnames):
+            if os.path.islink(os.path.join(dirpath, dirname)):  # type: ignore[call-overload]
+                dirnames.remove(dirname)
+                filenames.append(dirname)
+
         if precompose_unicode and isinstance(dirpath, str):
             dirpath = _precompose_unicode_path(dirpath)
             dirnames[:] = [
